@@ -938,7 +938,7 @@ func (m *Model) apply(fn *Func, args []interface{}) (interface{}, ctl) {
 		return id, ok0
 	case "pfail":
 		m.out.Trace = append(m.out.Trace, "pfail "+Render(args[0]))
-		return nil, errc("pfail", false)
+		return nil, errc("pfail", true)
 	}
 	if m.depth > 60 {
 		m.unspec("model recursion depth")
